@@ -470,6 +470,7 @@ CHECKS["C18"] = {
         {"pkg": "./core/aggsigdb", "harness": "VerifC18AggSigDB", "params": {}},
         {"pkg": "./core/aggsigdb", "harness": "VerifC18AggSigDBV1", "params": {}},
         {"pkg": "./core/sigagg", "harness": "VerifC18SigAgg", "params": {}},
+        {"pkg": "./core/fetcher", "harness": "VerifC18Fetcher", "params": {"nsubs": [1, 2]}},
         {"pkg": "./core/scheduler", "harness": "VerifC18Sched", "params": {"feature_fetch_att_on_block": 1, "opaque_pubkeys": 1}, "unwind": 20,
          "noops": ["github.com/obolnetwork/charon/core/scheduler.logResolvedDuties"]},
     ],
@@ -484,6 +485,7 @@ CHECKS["C18"] = {
         {"pkg": "./core/aggsigdb", "harness": "VerifC18AggSigDB", "params": {}, "cross": True},
         {"pkg": "./core/aggsigdb", "harness": "VerifC18AggSigDBV1", "params": {}, "cross": True},
         {"pkg": "./core/sigagg", "harness": "VerifC18SigAgg", "params": {}, "cross": True},
+        {"pkg": "./core/fetcher", "harness": "VerifC18Fetcher", "params": {"nsubs": [1, 2]}, "cross": True},
         {"pkg": "./core/scheduler", "harness": "VerifC18Sched", "params": {"feature_fetch_att_on_block": 1, "opaque_pubkeys": 1}, "unwind": 20, "cross": True,
          "noops": ["github.com/obolnetwork/charon/core/scheduler.logResolvedDuties"]},
     ],
